@@ -634,7 +634,9 @@ def apply (i : Info) (st : Settings) (dimx dimy : Int) (fuel : Nat) (d : Dest) :
       else if i.bpp == 15 ∨ i.bpp == 16 then readData15 i pitch st dimx dimy d
       else if i.bpp == 24 then readData i pitch st dimx dimy 3 d
       else if i.bpp == 32 then readData i pitch st dimx dimy 4 d
-      else pure d          -- no default in the switch: nothing is read (reachable with read_and_convert_image only)
+      else do              -- no default in the switch: nothing is read (reachable with read_and_convert_image only)
+        setTaint ("unsupported bits-per-pixel value falls through the switch in apply(): nothing is read, the destination is returned unwritten (" ++ fRead ++ ":apply)")
+        pure d
 
 /-! ### scanline reader -/
 
@@ -711,7 +713,8 @@ def scan (i : Info) : M Img := do
         if pitch < 0 then pure b else
         let site := fScan ++ ":read_row"
         let (row, got) ← readInto site b.dst pitch.toNat
-        if Int.ofNat got < i.width * (i.bpp / 8) then setTaint ("short row read used as pixel data in " ++ site) else pure ()
+        -- the whole scanline (padding included) is handed to the caller
+        if Int.ofNat got < pitch then setTaint ("short row read used as pixel data in " ++ site) else pure ()
         pure { b with dst := row })
     else ioErr
 
@@ -865,6 +868,7 @@ def textRows (i : Info) (st : Settings) (dimx : Int) (sl : Nat) (srcCh : Nat) (f
       textRows i st dimx sl srcCh fuel site n process (y + 1) row d
     else
       -- an incomplete row returns before copy_data: the destination row keeps its previous content
+      if process then setTaint ("text row ended early (end of file or a non-numeric character): read_text_row returns silently, the destination row is never written (" ++ site ++ ")") else pure ()
       textRows i st dimx sl srcCh fuel site n process (y + 1) row d
 
 /-- read_text_data -/
@@ -916,7 +920,8 @@ def binRows (i : Info) (st : Settings) (dimx : Int) (sl : Nat) (site : String) :
       else if st.x0 < 0 ∨ st.x0 + dimx > Int.ofNat sl then
         ubAt ("heap-buffer-overflow@" ++ site) "sub-rectangle columns outside the row buffer (settings are not checked against the image width)"
       else
-        if Int.ofNat got < (st.x0 + dimx) * ch ∧ (st.x0 + dimx) * ch ≤ Int.ofNat sl then
+        let hi : Int := if (st.x0 + dimx) * ch < Int.ofNat sl then (st.x0 + dimx) * ch else Int.ofNat sl
+        if Int.ofNat got < hi ∧ st.x0 * ch < hi then
           setTaint ("short row read used as pixel data in " ++ site) else pure ()
         -- bytes beyond the first sl of the over-allocated buffer are value-initialised and never written
         let bytes := ((buf ++ List.replicate (sl * ch - sl) 0).drop (st.x0.toNat * ch)).take (dimx.toNat * ch)
@@ -950,7 +955,8 @@ def apply (i : Info) (st : Settings) (dimx : Int) (fuel : Nat) (d : Dest) : M De
 
 /-- scanline reader: text row written straight into the iterator's buffer -/
 def scanTextRow (fuel : Nat) (maxValue : Int) (sl : Nat) (dst : List Nat) : M (List Nat) := do
-  let (row, _) ← textSamples (fScan ++ ":read_text_row") fuel maxValue true sl 0 dst
+  let (row, complete) ← textSamples (fScan ++ ":read_text_row") fuel maxValue true sl 0 dst
+  if !complete then setTaint ("text row ended early (end of file or a non-numeric character): read_text_row returns silently, the rest of the scanline is stale (" ++ fScan ++ ":read_text_row)") else pure ()
   pure row
 
 def scanRows (rowFn : List Nat → M (List Nat)) : Nat → List Nat → List (List Nat) → M (List (List Nat))
@@ -1198,7 +1204,7 @@ def decode (f : Fmt) (dev : Dev) (bytes : List UInt8) (st : Settings) : Outcome 
   | .ok (img, s) =>
     match s.taint with
     | none => .ok img
-    | some why => .ub "short-read" why
+    | some why => .ub "inconsistent-data-accepted" why
   | .error (.err k) => .err k
   | .error (.ub s w) => .ub s w
   | .error (.hang w) => .hang w
